@@ -275,6 +275,31 @@ class SimQueue:
         self.put_times: List[int] = []  # instants of every put() made by a worker, delivered or not
         self.got = 0
 
+    # ---------------------------------------------------------------------- a queue that outlives one call
+    def rebind(self, world: World):
+        """The queue was created by the parent OBJECT (its constructor ran under `detached()`), not by the call: a
+        legal implementation choice.  It then serves every call of that object, each simulated in a World of its own.
+        Whatever earlier calls left unread is still in it - the messages of an abandoned enumeration, of workers that
+        went on producing after the caller lost interest, what was in flight when a dead worker was reported - and is
+        readable at once, in the put order of each earlier producer, merged with the new messages by the schedule."""
+        stale = []
+        for q in self.pending.values():
+            stale.extend(q)
+        self.world = world
+        world.queues.append(self)
+        self.pending = {}
+        self.producers = {}
+        self.put_times = []
+        self.got = 0
+        for m in stale:
+            key = m.w if m.w >= STALE_BASE else STALE_BASE + m.w
+            m.w = key
+            m.t_put = m.t_avail = 0
+            self.pending.setdefault(key, []).append(m)
+            self.put_times.append(0)
+        if stale:
+            world.fired["stale-messages-of-an-earlier-call"] = world.fired.get("stale-messages-of-an-earlier-call", 0) + len(stale)
+
     # ------------------------------------------------------------------------------ producers (simulator side)
     def attach(self, proc: SimProcess, stream: Stream):
         w = self.world
@@ -467,6 +492,42 @@ DELAYS = {
 def delay(ch, template: str, what: str) -> int:
     opts = DELAYS.get(template, DELAYS["jitter"])
     return opts[ch.choose(len(opts), what)]
+
+
+STALE_BASE = 1000  # producer keys of messages left in a long-lived queue by earlier calls (never a worker index)
+
+
+class detached:
+    """Context manager for code that runs outside any call (constructing a MultiprocessingSolver): a Queue created
+    there is a SimQueue without a World; `adopt` hands it to the World of each later call."""
+
+    def __enter__(self):
+        import nucs.solvers.multiprocessing_solver as M
+
+        self.M = M
+        self.had = hasattr(M, "Queue")
+        self.saved = getattr(M, "Queue", None)
+        M.Queue = lambda maxsize=0: SimQueue(None)
+        return self
+
+    def __exit__(self, *a):
+        if self.had:
+            self.M.Queue = self.saved
+        else:
+            del self.M.Queue
+        return False
+
+
+def adopt(world: World, parent) -> int:
+    """Queues owned by the parent object (attributes, or members of list / tuple / dict attributes)."""
+    n = 0
+    for v in list(vars(parent).values()):
+        members = v if isinstance(v, (list, tuple)) else list(v.values()) if isinstance(v, dict) else [v]
+        for q in members:
+            if isinstance(q, SimQueue):
+                q.rebind(world)
+                n += 1
+    return n
 
 
 class patched:
